@@ -34,10 +34,13 @@ def check_names(names, pdg):
         if got != exp:
             fails.append((f"name:{tag}", f"charge_conjugate_name({n!r}{', pdg_name=True' if pdg else ''}) = {got!r}, the data tables give {exp!r}"))
             continue
+        back = charge_conjugate_name(got, pdg_name=True) if pdg else charge_conjugate_name(got)
         if not exp.startswith("ChargeConj("):
-            back = charge_conjugate_name(got, pdg_name=True) if pdg else charge_conjugate_name(got)
             if back != n:
                 fails.append((f"involution:{tag}", f"conjugating {n!r} twice gives {back!r} (via {got!r})"))
+        elif back != f"ChargeConj({got})":
+            # a wrapped label is itself a name without known conjugate: wrapped again, never unwrapped or altered
+            fails.append((f"wrapped-label-altered:{tag}", f"conjugating the unknown name {n!r} gives {got!r}; conjugating that gives {back!r} instead of 'ChargeConj({got})'"))
     return fails
 
 
@@ -53,6 +56,12 @@ def check_final_state(fs, pdg=False):
     fails = []
     if dict(got) != dict(exp) or len(got) != len(fs) or type(got) is not DaughtersDict:
         fails.append(("final-state", f"DaughtersDict({dict(c)}).charge_conjugate({'pdg_name=True' if pdg else ''}) = {dict(got)}, expected {dict(exp)}"))
+    twice = got.charge_conjugate(pdg_name=True) if pdg else got.charge_conjugate()
+    exp2 = collections.Counter()
+    for n, k in exp.items():
+        exp2[ccf(n) if not n.startswith("ChargeConj(") else f"ChargeConj({n})"] += k
+    if dict(twice) != dict(exp2):
+        fails.append(("final-state-twice", f"conjugating {dict(c)} twice gives {dict(twice)}, expected {dict(exp2)}"))
     if dict(dd) != snapshot:
         fails.append(("final-state-mutated", f"charge_conjugate() changed the original final state {snapshot} -> {dict(dd)}"))
     return fails
@@ -86,13 +95,21 @@ def check_cdecay_agreement(fss):
     for i, fs in enumerate(fss):
         ast += [["Alias", f"MyS{i}", "B0"], ["Alias", f"MySbar{i}", "anti-B0"], ["ChargeConj", f"MyS{i}", f"MySbar{i}"],
                 ["Decay", f"MyS{i}", [["0.125", list(fs), i % 2, "PHSP", None]]], ["CDecay", f"MySbar{i}"]]
+        if i % 3 == 0:
+            # the same decay through a CopyDecay clone that is conjugated as well
+            ast += [["CopyDecay", f"MyC{i}", f"MyS{i}"], ["ChargeConj", f"MyC{i}", f"MyCbar{i}"], ["CDecay", f"MyCbar{i}"]]
     p = decobs.parse_text(decmodel.render(ast))
     fails = []
     for i, fs in enumerate(fss):
-        got = decobs.table_of(p, f"MySbar{i}")
         exp = DecayMode(0.125, list(fs)).charge_conjugate()
-        if len(got) != 1 or collections.Counter(got[0][1]) != collections.Counter(dict(exp.daughters)) or got[0][0] != exp.bf:
-            fails.append((i, "cdecay-disagrees", f"CDecay table for final state {fs}: {got}; DecayMode.charge_conjugate(): {dict(exp.daughters)}"))
+        for name in [f"MySbar{i}"] + ([f"MyCbar{i}"] if i % 3 == 0 else []):
+            try:
+                got = decobs.table_of(p, name)
+            except Exception as e:  # noqa: BLE001
+                got = [("no table", [repr(e)])]
+            if len(got) != 1 or collections.Counter(got[0][1]) != collections.Counter(dict(exp.daughters)) or got[0][0] != exp.bf:
+                fails.append((i, "cdecay-disagrees", f"CDecay table {name} for final state {fs}: {got}; DecayMode.charge_conjugate(): {dict(exp.daughters)}"))
+                break
     return fails
 
 
